@@ -91,7 +91,7 @@ CLAIMS = {
                  'no unguarded recursion or unconditional abort is reachable from the parse entry points; parser loops progress; Unflatten implementations consult the sticky status. '
                  'Scope: C++ Message/templated parsers, all iogateway input paths, ZLibCodec, String/ByteBuffer, C MiniMessage and both C gateways. The MicroMessage in-place reader and the WebSocket header '
                  'state machine are listed as not decided.',
-         'note': 'A dominating comparison against an untainted quantity is taken as a meaningful bound (no numeric buffer-size computation). No known findings are open: the eight defects this check reported on the pinned tree (F1, F1c, F2, F3, F5, F6, F8, D3) were repaired by fix: commits and are kept as revert mutants.'},
+         'note': 'A dominating comparison against an untainted quantity is taken as a meaningful bound (no numeric buffer-size computation). No known findings are open: the twelve defects this check reported on the pinned tree (F1, F1c, F2, F3, F5, F6, F7a-d, F8, D3) were repaired by fix: commits and are kept as revert mutants.'},
  'C07': {'technique': 'static analysis: loop-progress + cursor-consistency on the CFG, recursion-guard and abort reachability on the class-hierarchy call graph',
          'text': 'Decides the structural part of "no handler hangs or crashes": every loop reachable from the reflect-session command dispatchers makes progress on every CFG cycle '
                  '(incl. the remove-at-cursor idiom), every reachable recursive component is depth-guarded or bounded by a guarded structure, no unconditional abort body is reachable. '
